@@ -524,6 +524,25 @@ def run_probe(pr):
             defer(f, num(pr['delta']), target)
         elif op == 'play':
             Routine(child).play(target, 0)
+        elif op == 'playq':
+            # play with a Quant onto a TempoClock: default (None), int, tuple, Quant object, negative phases
+            from sc3.base.clock import Quant
+            if pr.get('bpb') and clock is target:
+                target.beats_per_bar = num(pr['bpb'])        # moves base_bar_beat to the current beat
+            obs['base_bar_beat'] = fr(getattr(target, '_base_bar_beat', 0))
+            qd = pr['quant']
+            if qd is None:
+                qv = None
+            elif qd[0] == 'int':
+                qv = num(qd[1])
+            elif qd[0] == 'tuple':
+                qv = (num(qd[1]), num(qd[2]))
+            else:
+                qv = Quant(num(qd[1]), num(qd[2]))
+            if pr.get('how') == 'clock.play':
+                target.play(Routine(child), qv)
+            else:
+                Routine(child).play(target, qv)
         elif op == 'sched_abs':
             at = (target.beats if isinstance(target, TempoClock) else main.current_tt._seconds) + num(pr['delta'])
             target.sched_abs(at, f)
